@@ -3,8 +3,21 @@
 Engine: libFuzzer (clang-14, ASan+UBSan+LSan, `fuzz` build variant) over one
 target per parser entry point and flag combination (checks/c09_parsers.c), with
 an ASN.1/PEM structure-aware custom mutator (checks/c09_mutator.c).  Oracles:
-the sanitizers, libFuzzer's timeout / rss watchdogs, and the consistency
-walker the harness runs over every successfully parsed object.
+the sanitizers (ASan red zones behind the exact-size input, UBSan incl. fixed
+array bounds inside objects), libFuzzer's timeout / rss watchdogs, and the
+consistency walker the harness runs over every successfully parsed object
+(memory of every pointer/length pair, string termination, list bounds,
+attributeOrder[] of every parsed name against the stored values, closed value
+sets of scalar members next to fixed-size arrays, and the name accessors /
+one-line printers an application would call).
+
+Corpus (corpus/c09/<group>): the repository's sample credentials, objects
+minted with gen/certgen.h, regression inputs (reg-*), and the generated classes
+of gen/c09_seedgen.c: long names (40-60 repeated OU / DC RDNs in subject,
+issuer, CRL issuer and authorityKeyIdentifier authorityCertIssuer; boundary
+cases with 32 / 33 / 34 stored attributes), GeneralizedTime in certificates and
+CRLs, and edge-trunc-* inputs that end right behind a time value that is 1-3
+characters short with every enclosing length consistent.
 
 Phases
   1. replay: every committed seed of every target is executed once (libFuzzer
@@ -531,13 +544,28 @@ def replay_one(ctx, binary):
 LEVEL = "exploration"
 RULE = ("evaluations = parser executions (committed seeds replayed once per target + libFuzzer stat::number_of_executed_units "
         "+ files replayed under memcheck); distinct_nontrivial = sum over targets of the final libFuzzer corpus size, i.e. inputs "
-        "that each reached a coverage feature (edge or edge-hit-count bucket) no other kept input of that target reaches")
+        "that each reached a coverage feature (edge or edge-hit-count bucket) no other kept input of that target reaches. "
+        "Generators: committed seeds (samples, minted objects, long-name / GeneralizedTime / truncated-behind-a-short-time classes of "
+        "gen/c09_seedgen.c, regression inputs) mutated by libFuzzer's byte mutations and by the TLV-tree mutator (content, tag, length "
+        "forms and lies, delete / duplicate / transplant / wrap subtrees, special values, truncation inside a node, "
+        "'end the input right behind node i shortened by 0..3 octets with all enclosing lengths consistent', "
+        "'repeat a child of a constructed node 8..64 times'). Oracles: ASan (inputs in exact-size heap blocks), UBSan (incl. index "
+        "out of bounds of fixed arrays inside objects), LSan, timeout, and the consistency walker over every returned object")
 ASSUMPTIONS = [
     "default compile-time configuration of /repo (USE_CERT_POLICY_EXTENSIONS, USE_EXTRA_DN_ATTRIBUTES, BMPString DNs, RC2 are compiled out and not explored)",
     "inputs up to 65536 bytes; PKCS#12 / PKCS#8 / PEM decryption explored only under the fixed password 'secret'",
     "the *_z targets model the library's file loaders (buffer followed by an addressable NUL); all other targets give the parser an exact-size block",
     "exploration is sampling: absence of a report is not absence of a defect; hang = a single input taking more than 10 s",
     "certificate validity is judged against the wall clock by the library itself (validateDateRange); seeds expire in 2027+",
+    "an over-read is visible only when the value read from is the LAST thing in the input (red zone behind the exact-size block); "
+    "reads that stay inside the input but leave the current TLV are seen only through their effect on the returned object",
+    "an intra-object overflow is visible to UBSan when the array has a declared size, otherwise only through the walker: pointers that "
+    "cannot be application memory, lengths without a pointer, scalar members outside their closed value sets, attributeOrder[] "
+    "inconsistent with the stored name values (an overflow that stays inside tail padding - the 33rd attributeOrder entry on LP64 - "
+    "is invisible to the walker)",
+    "the authorityKeyIdentifier name may legitimately be parsed more than once into the same struct (repeated extension): only the "
+    "weak order invariants are asserted for it (valid ids, no gap, single attributes once and with a value, not more OU/DC entries "
+    "than stored); subject, issuer and CRL issuer get the exact accounting",
 ]
 
 
